@@ -45,7 +45,7 @@ def run(ctx):
         ctx.guard(lambda: lib_when.check_any_forward(ctx, fb, rfw))
         ctx.guard(lambda: lib_when.check_outcome(ctx, fb, rout, ('yaclib::when::Any',)))
         ctx.guard(lambda: lib_when.check_firstvalue(ctx, fb, rfv))
-        ctx.guard(lambda: lib_core.check_move_sites(ctx, fb, rmv, lambda f: 'async/when' in f.file))
+        ctx.guard(lambda: lib_core.check_move_sites(ctx, fb, rmv, lambda f: 'async/when' in f.file or f.file.endswith('detail/shared_core.hpp') or f.file.endswith('detail/unique_core.hpp')))
         ctx.guard(lambda: lib_core.check_loop_caller(ctx, fb, rlc, lambda f: f.clsq.startswith('yaclib::when::')))
         fns = lib_accessor.functions_with_accessors(fb, ANY_FILES)
         if not fns:
